@@ -166,4 +166,368 @@ theorem readArray_count (cfg : Cfg) (e : Ty) (n : Nat) (ctx : Ctx) (d : Bytes) (
     rw [readArray_other cfg _ n ctx d pos (by intros; intro h; cases h) (by intros; intro h; cases h)] at h
     exact other h
 
+theorem readN_mem (cfg : Cfg) (t : Ty) (ctx : Ctx) (d : Bytes) :
+    ∀ (n pos : Nat) (vs : Vals) (p : Nat), readN cfg t n ctx d pos = .ok (vs, p) →
+      ∀ r ∈ vs.toList, ∃ pos' p', read cfg t ctx d pos' = .ok (r, p') := by
+  intro n
+  induction n with
+  | zero =>
+    intro pos vs p h
+    rw [readN_zero] at h
+    cases h
+    intro r hr; simp [Vals.toList] at hr
+  | succ n ih =>
+    intro pos vs p h
+    rw [readN_succ] at h
+    obtain ⟨⟨v, p1⟩, h1, h2⟩ := bind_ok h
+    obtain ⟨⟨vs', p'⟩, h3, h4⟩ := bind_ok h2
+    cases h4
+    intro r hr
+    simp only [Vals.toList, List.mem_cons] at hr
+    rcases hr with rfl | hr
+    · exact ⟨_, _, h1⟩
+    · exact ih _ _ _ h3 r hr
+
+/-! ### `x[expr]` -/
+
+theorem evalLen_ok (cfg : Cfg) (toks : List String) (ctx : Ctx) (x : Int)
+    (hx : (Expr.Obj.evaluate ⟨toks⟩ { ctx := Ctx.ints ctx, consts := cfg.consts, sizeof := fun _ => .error .resolve }).2 = .ok x) :
+    evalLen cfg toks ctx = .ok x.toNat := by
+  unfold evalLen
+  simp only [hx]
+
+/-! ### `readExact` -/
+
+theorem sread_length (d : Bytes) (pos n : Nat) : (sread d pos n).length = min n (d.length - pos) := by
+  unfold sread
+  rw [List.length_take, List.length_drop]
+
+theorem readExact_ok_of_le {d : Bytes} {pos n : Nat} (h : n ≤ d.length - pos) :
+    readExact d pos n = .ok (sread d pos n, pos + n) :=
+  readExact_of_len (by rw [sread_length]; omega)
+
+theorem readExact_err_of_lt {d : Bytes} {pos n : Nat} (h : d.length - pos < n) :
+    readExact d pos n = .error .eof := by
+  unfold readExact
+  have : (sread d pos n).length ≠ n := by rw [sread_length]; omega
+  simp [this]
+
+theorem readExact_err {d : Bytes} {pos n : Nat} {e} (h : readExact d pos n = .error e) :
+    e = .eof ∧ d.length - pos < n := by
+  by_cases hl : n ≤ d.length - pos
+  · rw [readExact_ok_of_le hl] at h; cases h
+  · rw [readExact_err_of_lt (by omega)] at h; cases h; exact ⟨rfl, by omega⟩
+
+theorem readExact_ok_le {d : Bytes} {pos n : Nat} {r} (h : readExact d pos n = .ok r) :
+    n ≤ d.length - pos ∧ r = (sread d pos n, pos + n) := by
+  obtain ⟨h1, h2⟩ := readExact_ok h
+  rw [sread_length] at h1
+  exact ⟨by omega, h2⟩
+
+/-! ### the bulk reader is the element loop -/
+
+theorem readScalar_pint (cfg : Cfg) (k : Nat) (sg : Bool) (d : Bytes) (pos : Nat) :
+    readScalar cfg (.pint k sg) d pos =
+      (readExact d pos k).bind fun r => .ok (.int (decodeInt cfg.endian sg r.1), r.2) := rfl
+
+theorem readN_pint_error (cfg : Cfg) (k : Nat) (sg : Bool) (a : Nat) (ctx : Ctx) (d : Bytes) :
+    ∀ (n pos : Nat) (e : Err), readN cfg (.sc (.pint k sg) a) n ctx d pos = .error e →
+      e = .eof ∧ d.length - pos < k * n := by
+  intro n
+  induction n with
+  | zero => intro pos e h; rw [readN_zero] at h; cases h
+  | succ n ih =>
+    intro pos e h
+    rw [readN_succ, read_sc, readScalar_pint] at h
+    have hk : k * (n + 1) = k * n + k := Nat.mul_succ k n
+    cases h1 : readExact d pos k with
+    | error e1 =>
+      rw [h1] at h
+      simp only [Except.bind] at h
+      cases h
+      obtain ⟨rfl, hlt⟩ := readExact_err h1
+      exact ⟨rfl, by rw [hk]; omega⟩
+    | ok r =>
+      rw [h1] at h
+      obtain ⟨hle, rfl⟩ := readExact_ok_le h1
+      simp only [Except.bind] at h
+      cases h2 : readN cfg (.sc (.pint k sg) a) n ctx d (pos + k) with
+      | error e2 =>
+        rw [h2] at h
+        simp only [] at h
+        cases h
+        obtain ⟨rfl, hlt⟩ := ih _ _ h2
+        exact ⟨rfl, by rw [hk]; omega⟩
+      | ok r2 =>
+        rw [h2] at h
+        cases h
+
+theorem readArray_pint (cfg : Cfg) (k : Nat) (sg : Bool) (a n : Nat) (ctx : Ctx) (d : Bytes) (pos : Nat) :
+    readArray cfg (.sc (.pint k sg) a) n ctx d pos =
+      (readN cfg (.sc (.pint k sg) a) n ctx d pos).map (fun (vs, p) => (Val.list vs, p)) := by
+  rw [readArray.eq_1]
+  cases h : readN cfg (.sc (.pint k sg) a) n ctx d pos with
+  | ok r =>
+    obtain ⟨vs, p⟩ := r
+    rw [readScalarArray_of_readN cfg _ a k _ (bulk_pint cfg k sg) ctx d n pos vs p h]
+    rfl
+  | error e =>
+    obtain ⟨rfl, hlt⟩ := readN_pint_error cfg k sg a ctx d n pos e h
+    rw [(bulk_pint cfg k sg).2, readExact_err_of_lt hlt]
+    rfl
+
+/-! ### `x[EOF]` -/
+
+theorem read_arr_eof (cfg : Cfg) (e ctx data pos) :
+    read cfg (.arr e .eof) ctx data pos = readEOF cfg e ctx data pos := by
+  rw [read]
+
+theorem readEOF_pint (cfg : Cfg) (k : Nat) (sg : Bool) (a : Nat) (ctx : Ctx) (d : Bytes) (pos : Nat) (hk : 0 < k) :
+    readEOF cfg (.sc (.pint k sg) a) ctx d pos =
+      if (d.length - pos) % k ≠ 0 then .error .eof
+      else .ok (.list (Vals.ofInts ((splitEvery k ((d.length - pos) / k) (d.drop pos)).map (decodeInt cfg.endian sg))),
+        max pos d.length) := by
+  rw [readEOF.eq_1]
+  have : k ≠ 0 := by omega
+  simp only [readScalarArrayEOF, this, if_false, List.length_drop]
+
+/-! ### writing -/
+
+theorem write_arr_null_chars (cfg : Cfg) (a b pos) :
+    write cfg (.arr (.sc .char a) .nullTerm) (.bytes b) pos = .ok (b ++ [0]) := by
+  rw [write]
+
+theorem write_arr_null_list (cfg : Cfg) (e vs pos) :
+    write cfg (.arr e .nullTerm) (.list vs) pos = writeN cfg e (vs.snoc (e.default cfg)) pos := by
+  rw [write.eq_def]
+  cases e with
+  | sc s a => cases s <;> rfl
+  | _ => rfl
+
+theorem default_pint (cfg : Cfg) (k sg a) : (Ty.sc (.pint k sg) a).default cfg = .int 0 := by
+  rw [Ty.default]; rfl
+
+theorem ofList_snoc : ∀ (l : List Val) (v : Val), (Vals.ofList l).snoc v = Vals.ofList (l ++ [v]) := by
+  intro l v
+  induction l with
+  | nil => rfl
+  | cons a r ih => simp only [Vals.ofList, Vals.snoc, List.cons_append, ih]
+
+theorem writeN_append (cfg : Cfg) (t : Ty) : ∀ (l : List Val) (v : Val) (pos : Nat) (bs : Bytes),
+    writeN cfg t (Vals.ofList (l ++ [v])) pos = .ok bs →
+      ∃ body last, bs = body ++ last ∧ writeN cfg t (Vals.ofList l) pos = .ok body ∧
+        write cfg t v (pos + body.length) = .ok last := by
+  intro l
+  induction l with
+  | nil =>
+    intro v pos bs h
+    simp only [List.nil_append, Vals.ofList] at h
+    rw [writeN_cons] at h
+    obtain ⟨x, h1, h2⟩ := bind_ok h
+    obtain ⟨y, h3, h4⟩ := bind_ok h2
+    rw [writeN_nil] at h3
+    cases h3; cases h4
+    refine ⟨[], x, by simp, ?_, ?_⟩
+    · simp only [Vals.ofList]; rw [writeN_nil]
+    · simpa using h1
+  | cons a r ih =>
+    intro v pos bs h
+    simp only [List.cons_append, Vals.ofList] at h
+    rw [writeN_cons] at h
+    obtain ⟨x, h1, h2⟩ := bind_ok h
+    obtain ⟨y, h3, h4⟩ := bind_ok h2
+    cases h4
+    obtain ⟨body, last, rfl, h5, h6⟩ := ih v _ _ h3
+    refine ⟨x ++ body, last, by simp, ?_, ?_⟩
+    · simp only [Vals.ofList]
+      rw [writeN_cons, h1]
+      simp only [Except.bind]
+      rw [h5]
+    · rw [List.length_append, ← Nat.add_assoc]; exact h6
+
+theorem write_pint_zero (cfg : Cfg) (k sg a pos last)
+    (h : write cfg (.sc (.pint k sg) a) (.int 0) pos = .ok last) : encodeInt cfg.endian k sg 0 = some last := by
+  rw [write_sc] at h
+  simp only [writeScalar] at h
+  split at h
+  · cases h; assumption
+  · cases h
+
+/-! ### `x[]` -/
+
+theorem read0_sc (cfg : Cfg) (s a ctx data pos) :
+    read0 cfg (.sc s a) ctx data pos = readScalarNullTerm cfg s data pos := by
+  rw [read0.eq_1]
+
+theorem readScalar0_pint_succ (cfg : Cfg) (k : Nat) (sg : Bool) (d : Bytes) (fuel pos : Nat) (acc : List Val) :
+    readScalar0 cfg (.pint k sg) d (fuel + 1) pos acc =
+      match readExact d pos k with
+      | .error e => .error e
+      | .ok (bs, p) =>
+        if decodeInt cfg.endian sg bs = 0 then .ok (acc.reverse, p)
+        else readScalar0 cfg (.pint k sg) d fuel p (.int (decodeInt cfg.endian sg bs) :: acc) := by
+  simp only [readScalar0, readScalar_pint]
+  cases readExact d pos k with
+  | error e => rfl
+  | ok r => simp [Except.bind]
+
+theorem readScalar0_pint (cfg : Cfg) (k : Nat) (sg : Bool) (d : Bytes) :
+    ∀ (fuel pos : Nat) (acc out : List Val) (p : Nat),
+      readScalar0 cfg (.pint k sg) d fuel pos acc = .ok (out, p) →
+      ∃ vs : List Int, out = acc.reverse ++ vs.map .int ∧ (∀ x ∈ vs, x ≠ 0) ∧ p = pos + (vs.length + 1) * k ∧
+        (∀ i (hi : i < vs.length),
+          readScalar cfg (.pint k sg) d (pos + i * k) = .ok (.int vs[i], pos + (i + 1) * k)) ∧
+        readScalar cfg (.pint k sg) d (pos + vs.length * k) = .ok (.int 0, p) := by
+  intro fuel
+  induction fuel with
+  | zero => intro pos acc out p h; simp only [readScalar0] at h; cases h
+  | succ fuel ih =>
+    intro pos acc out p h
+    rw [readScalar0_pint_succ] at h
+    cases h1 : readExact d pos k with
+    | error e => rw [h1] at h; cases h
+    | ok r =>
+      rw [h1] at h
+      obtain ⟨hle, rfl⟩ := readExact_ok_le h1
+      simp only [] at h
+      split at h
+      · rename_i hz
+        cases h
+        refine ⟨[], by simp, by simp, by simp, by simp, ?_⟩
+        simp only [List.length_nil, Nat.zero_mul, Nat.add_zero]
+        rw [readScalar_pint, h1]
+        simp only [Except.bind, hz]
+      · rename_i hz
+        obtain ⟨vs, h2, h3, h4, h5, h6⟩ := ih _ _ _ _ h
+        refine ⟨decodeInt cfg.endian sg (sread d pos k) :: vs, ?_, ?_, ?_, ?_, ?_⟩
+        · rw [h2]; simp
+        · intro x hx
+          simp only [List.mem_cons] at hx
+          rcases hx with rfl | hx
+          · exact hz
+          · exact h3 x hx
+        · rw [h4]; simp only [List.length_cons, Nat.add_mul, Nat.one_mul]; omega
+        · intro i hi
+          cases i with
+          | zero =>
+            simp only [Nat.zero_mul, Nat.add_zero, List.getElem_cons_zero, Nat.zero_add, Nat.one_mul]
+            rw [readScalar_pint, h1]; rfl
+          | succ j =>
+            simp only [List.length_cons, Nat.add_lt_add_iff_right] at hi
+            have := h5 j hi
+            simp only [List.getElem_cons_succ]
+            have e1 : pos + (j + 1) * k = pos + k + j * k := by rw [Nat.add_mul, Nat.one_mul]; omega
+            have e2 : pos + (j + 1 + 1) * k = pos + k + (j + 1) * k := by
+              rw [Nat.add_mul (j + 1) 1 k, Nat.one_mul]; omega
+            rw [e1, e2]; exact this
+        · have e1 : pos + (decodeInt cfg.endian sg (sread d pos k) :: vs).length * k = pos + k + vs.length * k := by
+            rw [List.length_cons, Nat.add_mul, Nat.one_mul]; omega
+          rw [e1]; exact h6
+
+theorem readScalarNullTerm_pint (cfg : Cfg) (k : Nat) (sg : Bool) (d : Bytes) (pos : Nat) (v : Val) (p : Nat)
+    (h : readScalarNullTerm cfg (.pint k sg) d pos = .ok (v, p)) :
+    ∃ vs : List Int, v = .list (Vals.ofList (vs.map .int)) ∧ (∀ x ∈ vs, x ≠ 0) ∧ p = pos + (vs.length + 1) * k ∧
+      (∀ i (hi : i < vs.length), readScalar cfg (.pint k sg) d (pos + i * k) = .ok (.int vs[i], pos + (i + 1) * k)) ∧
+      readScalar cfg (.pint k sg) d (pos + vs.length * k) = .ok (.int 0, p) := by
+  unfold readScalarNullTerm at h
+  cases h1 : readScalar0 cfg (.pint k sg) d (d.length - pos + 2) pos [] with
+  | error e => rw [h1] at h; cases h
+  | ok r =>
+    obtain ⟨out, q⟩ := r
+    rw [h1] at h
+    simp only [] at h
+    cases h
+    obtain ⟨vs, h2, h3⟩ := readScalar0_pint cfg k sg d _ _ _ _ _ h1
+    refine ⟨vs, ?_, h3⟩
+    rw [h2]; simp
+
+/-! ### `char x[]` -/
+
+theorem drop_of_take_one {d : Bytes} {pos : Nat} {x : UInt8} (h : (d.drop pos).take 1 = [x]) :
+    d.drop pos = x :: d.drop (pos + 1) := by
+  cases hd : d.drop pos with
+  | nil => rw [hd] at h; cases h
+  | cons y t =>
+    rw [hd] at h
+    simp only [List.take_succ_cons, List.take_zero, List.cons.injEq, and_true] at h
+    subst h
+    have : d.drop (pos + 1) = (d.drop pos).drop 1 := by rw [List.drop_drop]
+    rw [this, hd]; rfl
+
+theorem readScalar0_char_succ (cfg : Cfg) (d : Bytes) (fuel pos : Nat) (acc : List Val) :
+    readScalar0 cfg .char d (fuel + 1) pos acc =
+      match readExact d pos 1 with
+      | .error e => .error e
+      | .ok (bs, p) => if bs = [0] then .ok (acc.reverse, p) else readScalar0 cfg .char d fuel p (.bytes bs :: acc) := by
+  simp only [readScalar0]
+  cases readExact d pos 1 with
+  | error e => rfl
+  | ok r => rfl
+
+theorem readScalar0_char (cfg : Cfg) (d : Bytes) :
+    ∀ (fuel pos : Nat) (acc out : List Val) (p : Nat),
+      readScalar0 cfg .char d fuel pos acc = .ok (out, p) →
+      ∃ b : Bytes, out = acc.reverse ++ b.map (fun x => Val.bytes [x]) ∧ (∀ x ∈ b, x ≠ 0) ∧ p = pos + b.length + 1 ∧
+        (d.drop pos).take (b.length + 1) = b ++ [0] := by
+  intro fuel
+  induction fuel with
+  | zero => intro pos acc out p h; simp only [readScalar0] at h; cases h
+  | succ fuel ih =>
+    intro pos acc out p h
+    rw [readScalar0_char_succ] at h
+    cases h1 : readExact d pos 1 with
+    | error e => rw [h1] at h; cases h
+    | ok r =>
+      rw [h1] at h
+      obtain ⟨hl, rfl⟩ := readExact_ok h1
+      simp only [] at h
+      -- the byte read
+      obtain ⟨x, hx⟩ : ∃ x, sread d pos 1 = [x] := by
+        match hs : sread d pos 1, hl with
+        | [x], _ => exact ⟨x, rfl⟩
+      have hdrop := drop_of_take_one (d := d) (pos := pos) (x := x) (by unfold sread at hx; exact hx)
+      rw [hx] at h
+      split at h
+      · rename_i hz
+        cases h
+        simp only [List.cons.injEq, and_true] at hz
+        subst hz
+        refine ⟨[], by simp, by simp, by simp, ?_⟩
+        rw [hdrop]; simp
+      · rename_i hz
+        obtain ⟨b, h2, h3, h4, h5⟩ := ih _ _ _ _ h
+        refine ⟨x :: b, ?_, ?_, ?_, ?_⟩
+        · rw [h2]; simp
+        · intro y hy
+          simp only [List.mem_cons] at hy
+          rcases hy with rfl | hy
+          · intro h0; apply hz; rw [h0]
+          · exact h3 y hy
+        · rw [h4]; simp only [List.length_cons]; omega
+        · rw [hdrop]
+          simp only [List.length_cons, List.take_succ_cons, List.cons_append, List.cons.injEq, true_and]
+          exact h5
+
+theorem joinBytes_singletons : ∀ b : Bytes, joinBytes (b.map fun x => Val.bytes [x]) = b := by
+  intro b
+  induction b with
+  | nil => rfl
+  | cons x r ih => simp only [List.map_cons, joinBytes, ih, List.singleton_append]
+
+theorem readScalarNullTerm_char (cfg : Cfg) (d : Bytes) (pos : Nat) (v : Val) (p : Nat)
+    (h : readScalarNullTerm cfg .char d pos = .ok (v, p)) :
+    ∃ b : Bytes, v = .bytes b ∧ (∀ x ∈ b, x ≠ 0) ∧ p = pos + b.length + 1 ∧
+      (d.drop pos).take (b.length + 1) = b ++ [0] := by
+  unfold readScalarNullTerm at h
+  cases h1 : readScalar0 cfg .char d (d.length - pos + 2) pos [] with
+  | error e => rw [h1] at h; cases h
+  | ok r =>
+    obtain ⟨out, q⟩ := r
+    rw [h1] at h
+    simp only [] at h
+    cases h
+    obtain ⟨b, h2, h3⟩ := readScalar0_char cfg d _ _ _ _ _ h1
+    refine ⟨b, ?_, h3⟩
+    rw [h2]; simp [joinBytes_singletons]
+
 end Cstruct.C07.Lemmas
